@@ -48,6 +48,7 @@ let run () =
         Printf.printf "%s %s\n" id (if verify (key_of k) (n_of_int (int_of_string m)) (sig_of s) then "true" else "false")
       | id :: "K" :: rest ->
         let res = (match rest with
+          | ["reset"] -> kbs := []; "ok"
           | ["create"; kid; p] -> if kid = "9999999" then "err" else (ignore (step (KCreate (n_of_int (int_of_string kid), bz p))); "ok")
           | ["sign"; kid; p; m] -> (match step (KSign (addr kid, bz p, n_of_int (int_of_string m))) with KSig _ -> "sig verifies=true" | _ -> "err")
           | ["update"; kid; o; np] -> (match step (KUpdate (addr kid, bz o, bz np)) with KOk -> "ok" | _ -> "err")
